@@ -43,7 +43,9 @@ struct C09 : RBase {
       for (const char* st : {"cn = tab(2, tab(2, 1));", "ct = tab(2, tup(1, \"x\"));", "cd = tab(2, 1.5);", "cq = tab(2, tab(1, tup(1, 2)));", "ci = tab(2, 1);", "cw = tup(1, \"x\", 2.5);",
                              "function oput(t, p, v) return table is begin t.put(p, v); return t; end;", "function oins(t, p, v) return table is begin t.insert(p, v); return t; end;",
                              "function ocat(t, v) return table is begin t.concat(v); return t; end;", "function oset(u, v) return tuple is begin u.set@1(v); return u; end;",
-                             "function oset3(u, v) return tuple is begin u.set@3(v); return u; end;"}) U.push_back({raw(st)});
+                             "function oset3(u, v) return tuple is begin u.set@3(v); return u; end;",
+                             // a refused operation leaves the container as it was: the size seen after a concat / put / insert that was refused is the size before it
+                             "function osize(t, v, w) return integer is begin begin if w == 0 then t.concat(v); elsif w == 1 then t.put(0, v); else t.insert(0, v); end if; return (-1); exception when others then return t.count(); end; return (-2); end;"}) U.push_back({raw(st)});
       static const char* T[] = {"cn", "ct", "cd", "cq", "ci"};
       static const char* V[] = {"1.5", "2", "null", "\"s\"", "tup(1, \"x\")", "tup(\"a\", 1)", "tup(7, \"x\", true)", "tup(2, \"y\")", "tup(3, 4)", "tab(1, 1)", "tab(1, 1.5)", "tab(1, tab(1, 1))", "int()", "num()", "tab(2, 5)",
                                 "tab(1, tup(3, \"z\"))", "tab(1, tup(\"z\", 3))", "tab(1, tup(5, 6))", "tab(1, tab(1, tup(5, 6)))", "true", "tab()", "tup()", "str()"};
@@ -61,6 +63,9 @@ struct C09 : RBase {
         case 10: st = "cw = " + std::string(r.chance(0.5) ? "oset(cw, " : "oset3(cw, ") + v + ");"; break;
         default: st = "forall rw in " + std::string(r.chance(0.5) ? "cn" : "cq") + " loop rw = " + v + "; break; end loop;"; break;
         }
+        if (r.chance(0.15)) { // a value that cannot be converted (out of the integer range, not a number): the refused operation must not have changed the size
+          static const char* BAD[] = {"1.0e30", "(1.0e308 * 10.0)", "((1.0e308 * 10.0) - (1.0e308 * 10.0))", "(-1.0e30)"}; std::string key = "z" + std::to_string(i);
+          U.push_back({raw("print \"SAME:" + key + ":\" ci.count();")}); st = "sz = osize(ci, " + std::string(BAD[r.below(4)]) + ", " + std::to_string(r.below(3)) + ");\nif sz >= 0 then print \"SAME:" + key + ":\" sz; end if;"; }
         if (r.chance(0.08)) { // a typed declaration of the iterator inside the loop resets the element; reading it afterwards must not change it
           static const char* TD[][2] = {{"ci", "integer"}, {"cd", "decimal"}, {"ci", "string"}, {"cn", "table"}, {"ct", "tuple"}};
           auto& td = TD[r.below(5)]; st = std::string("forall e in ") + td[0] + " loop e:" + td[1] + "; print isnull(e) isnull(e) typeof(e); end loop;"; }
